@@ -9,6 +9,7 @@ import (
 	"os"
 	"strings"
 	"sync"
+	"sync/atomic"
 	"time"
 
 	"verif/harness/engines/chw"
@@ -263,6 +264,33 @@ func Child(c *run.Ctx, name string) {
 				}
 				os.Exit(exitStall)
 			}
+		}
+		if gi%200 == 123 {
+			// the database goes away for a moment: one INSERT fails (connection-level errors among the scripted ones)
+			// and the reconnect made right after it is refused once. The push caught in it must still be answered.
+			var failed atomic.Int32
+			led.SetScript(func(table string, nth int, blk *chw.Block) chw.Outcome {
+				if failed.Add(1) <= 2 {
+					return chw.Err
+				}
+				return chw.OK
+			})
+			led.RefuseNext(1)
+			cn := mkCanary(2000000 + gi)
+			cn.Rec = sess.Send(4, &cn.Req)
+			led.SetScript(nil)
+			c.Floor("pushes caught in a failed INSERT followed by a refused reconnect", 0, 1)
+			if cn.Rec.Status == 0 {
+				if stuck := stuckInQryn(); len(stuck) > 0 {
+					top := stuck[0].QrynFrames()[0]
+					c.Violation("wedged/after-failed-insert-and-refused-reconnect/"+top, fmt.Sprintf("a well-formed %s push got no HTTP answer within %v after its INSERT failed and the reconnect was refused once; %d goroutine(s) of the request are blocked in the same qryn frames in two dumps 2 s apart, innermost %s [%s]",
+						cn.Req.Proto, sess.Timeout, len(stuck), top, stuck[0].State), map[string]any{"case_index": gi, "refuse": true})
+				} else {
+					c.Undecided("push unanswered after a failed INSERT and a refused reconnect, no goroutine stuck in qryn frames")
+				}
+				os.Exit(exitStall)
+			}
+			c.Cover("failed INSERT + refused reconnect", fmt.Sprintf("answered %dxx", cn.Rec.Status/100), 1)
 		}
 		if gi%100 == 33 {
 			// a burst: eight clients push at the same moment, every body with label names nobody has sent before
